@@ -482,9 +482,16 @@ func (e *Env) logic(x *dsl.Expr) (Val, *Err) {
 	return BoolV(l.B || r.B), nil
 }
 
+// MaxStrLen bounds string values in reference runs (a guard against programs that double a
+// string inside nested loops); beyond it the program is reported as out of budget.
+const MaxStrLen = 1 << 16
+
 // Arith implements + - * / of C01.
 func Arith(op string, l, r Val) (Val, *Err) {
 	if l.C == 's' && r.C == 's' && op == "+" {
+		if len(l.S)+len(r.S) > MaxStrLen {
+			return Val{}, errf("budget", "string longer than %d bytes", MaxStrLen)
+		}
 		return StrV(l.S + r.S), nil
 	}
 	if !l.numeric() || !r.numeric() {
@@ -1196,6 +1203,12 @@ func (e *Env) setSimple(name string, v Val) *Err {
 		}
 		el.Set(cv)
 		return nil
+	}
+	if v.C == 'o' && v.O.IsValid() && v.O.CanAddr() && v.O.CanInterface() {
+		// a local is bound to the value, not to the storage it was read from: the slice /
+		// map / pointer / struct value is copied (Go assignment semantics), so a later store
+		// to the field or element it came from does not change the local
+		v.O = reflect.ValueOf(v.O.Interface())
 	}
 	e.Locals[name] = v
 	return nil
